@@ -4,7 +4,8 @@ cd "$(dirname "$0")/.."
 TIER=${1:-quick}
 OUT=${ALLCHECKS_OUT:-/tmp/allchecks_$TIER}
 mkdir -p "$OUT"
-for p in C01 C02 C03 C04 C05 C06 C07 C08 C09 C10 C11 C12 C13 C14 C15 C16 C17 C18 C19 C20; do
+ORDER=${ALLCHECKS_ORDER:-C01 C02 C03 C04 C05 C06 C07 C08 C09 C10 C11 C12 C13 C14 C15 C16 C17 C18 C19 C20}
+for p in $ORDER; do
   s=$(date +%s)
   ./run.py $p --tier $TIER > $OUT/$p.out 2>$OUT/$p.err
   rc=$?
